@@ -176,6 +176,7 @@ func newSandbox(parent string, idx int, c *Case) *sandbox {
 		must(os.WriteFile(filepath.Join(sb.base, "target-evil", "keep"), []byte("K"), 0o644))
 	}
 	must(os.WriteFile(filepath.Join(sb.base, "targetx"), []byte("X"), 0o644))
+	must(os.WriteFile(filepath.Join(sb.cwd, "cf"), []byte("CWDFILE"), 0o644)) // SymlinkIgnore reads relative targets from the cwd
 	return sb
 }
 
@@ -1030,12 +1031,15 @@ func scenario(r *rand.Rand, k int) []Entry {
 		}
 		return []Entry{{Name: strings.Join(segs, "/") + "/" + f, Type: "reg", Size: 1}, {Name: "after", Type: "reg", Size: 1},
 			{Name: "ll", Type: "sym", Link: strings.Join(segs, "/")}}
+	case 16: // SymlinkIgnore: copies of absolute (re-rooted) and cwd-relative targets, pass order matters
+		return []Entry{{Name: "l", Type: "sym", Link: "/etc/" + f}, {Name: "etc/" + f, Type: "reg", Size: 9}, {Name: "a/k", Type: "sym", Link: "cf"},
+			{Name: "m", Type: "hard", Link: "etc/" + f}, {Name: "n/o", Type: "sym", Link: "/l"}}
 	default: // dangling link in the parent chain
 		return []Entry{{Name: "dl", Type: "sym", Link: "missing"}, {Name: "dl/" + f, Type: "reg", Size: 2}, {Name: "dl2", Type: "sym", Link: "dl/x"}}
 	}
 }
 
-const nScenarios = 17
+const nScenarios = 18
 
 func genUnpack(r *rand.Rand, stream string) *Case {
 	c := &Case{Stream: stream, Op: "unpack-tarball", Passes: []int{1, 2, 3, 3, 3}[r.Intn(5)], MaxBytes: []int64{0, 0, 10, 1 << 30}[r.Intn(4)]}
@@ -1056,7 +1060,12 @@ func genUnpack(r *rand.Rand, stream string) *Case {
 	var es []Entry
 	odd := []int{0, 15, 40}[r.Intn(3)]
 	if stream == "unpack-scenario" {
-		sc := scenario(r, r.Intn(nScenarios))
+		k := r.Intn(nScenarios)
+		if k == 16 {
+			c.Op = "unpack-tarball"
+			c.Ignore = r.Intn(4) != 0
+		}
+		sc := scenario(r, k)
 		for _, e := range sc {
 			for _, x := range strings.Split(e.Name+"/"+e.Link, "/") {
 				if x == ".." {
